@@ -882,6 +882,8 @@ where
             self.handle_admit(kh, &entry, new_weight, deqs, counters);
             return;
         }
+        #[cfg(mini_moka_verif)]
+        crate::verif::switch(crate::verif::Point::UpsertNoRoom);
 
         if let Some(max) = self.max_capacity {
             if new_weight as u64 > max {
